@@ -239,7 +239,7 @@ impl<S: Service> Ev<S> {
         let n = res(svc.notifier_builder().create())?;
         res(n.notify_with_custom_event_id(EventId::new(7)))?;
         let mut got = vec![];
-        res(l.try_wait(|id| got.push(id.as_value())))?;
+        res(l.try_wait(|id| got.push(id.id.as_value())))?;
         if got == vec![7] { Ok(()) } else { Err(format!("recreated-service-delivered-{:?}", got).replace(' ', "")) }
     }
 }
